@@ -10,7 +10,10 @@ Assembled from the parts that own each input surface:
   * git request headers: props/C12.py c13_part (Serve.tla header classes + seeded random/mutated bytes
     through the real pkt-line parser);
   * frame bytes: props/C14.py c13_part (Wire.tla frame classes + seeded random/mutated bytes through the
-    real frame decoder), when present.
+    real frame decoder);
+  * control frames, git frames, gossip and raw bytes through the real `Wire::handle_transport_event` in any
+    order with fetches, worker results and reconnects: props/wire_common.py c13_part (Streams.tla design
+    model + seeded random scenarios on the real Wire around the real Service).
 """
 import importlib.util
 import os
@@ -50,7 +53,7 @@ def run(ctx):
                       {"script": v["script"], "op": v["op"]})
     parts = {"gossip": stats}
     ctx.cov["distinct_nontrivial"] = stats.get("steps", 0)
-    for name in ("C12", "C14"):
+    for name in ("C12", "C14", "wire_common"):
         mod = load(name)
         if mod is not None and hasattr(mod, "c13_part"):
             parts[name] = mod.c13_part(ctx)
@@ -66,7 +69,7 @@ def replay(ctx, path):
     d = json.load(open(path))["replay"]
     if "script" in d:
         return g.replay(ctx, path)
-    for name in ("C12", "C14"):
+    for name in ("C12", "C14", "wire_common"):
         mod = load(name)
         if mod is not None and d.get("engine") == getattr(mod, "ENGINE", None):
             return mod.replay(ctx, path)
